@@ -11,7 +11,7 @@ pub fn run(ctx: &Ctx) -> i32 {
     let du = [0.0f32, 10.0, 50.0];
     let ug = [0.6f32, 1.0, 3.3, 5.7];
     let uf = [0.8f32, 2.2, 5.7, 7.0];
-    let gn = [0.2f32, 0.5, 0.85];
+    let gn = [0.2f32, 0.5, 0.85, 0.0];
     let gsh = [None, Some(0.05f32), Some(0.337)];
     let sp = Grid::new(&[
         ("f_f", ff.len()),
@@ -220,7 +220,7 @@ pub fn run(ctx: &Ctx) -> i32 {
     ctx.nontriv(nt);
     ctx.finish(
         "model_checking",
-        "full Cartesian product f_f{0,.1,.25,.5,1} x dU{0,10,50} x Uglass{.6,1,3.3,5.7} x Uframe{.8,2.2,5.7,7} x g_n{.2,.5,.85} x g_glshwi{None,.05,.337} x glass ref{ok,nil,dangling} x frame ref{ok,nil,dangling}, each construction observed directly (WinCons::u_value/g_glwi/g_glshwi) and inside a one-window box model through props.wincons, K_data.windows and q_soljul_data; tuples are distinct by construction; all ordered pairs of a 96-construction alphabet (f_f{0,.25} x dU{0,10} x g_glshwi(3) x glazing{gl,gl2,nil,dangling} x frame{fr,nil}) as two constructions of one model with one window each, every props.wincons entry against the formula for that construction alone and the mean window U in K against the two values (5.7 where a construction has none); non-trivial = glazing and frame both resolve (formula path)",
+        "full Cartesian product f_f{0,.1,.25,.5,1} x dU{0,10,50} x Uglass{.6,1,3.3,5.7} x Uframe{.8,2.2,5.7,7} x g_n{.2,.5,.85,0 (opaque panel)} x g_glshwi{None,.05,.337} x glass ref{ok,nil,dangling} x frame ref{ok,nil,dangling}, each construction observed directly (WinCons::u_value/g_glwi/g_glshwi) and inside a one-window box model through props.wincons, K_data.windows and q_soljul_data; tuples are distinct by construction; all ordered pairs of a 96-construction alphabet (f_f{0,.25} x dU{0,10} x g_glshwi(3) x glazing{gl,gl2,nil,dangling} x frame{fr,nil}) as two constructions of one model with one window each, every props.wincons entry against the formula for that construction alone and the mean window U in K against the two values (5.7 where a construction has none); non-trivial = glazing and frame both resolve (formula path)",
         true,
         json!({"space_size": n, "pairs": np}),
     )
